@@ -147,3 +147,39 @@ func Verif_C13_admission() {
 	s.Close()
 	verifAssert("close-closes-probe", c.closed)
 }
+
+// Concrete textual neighbours: addresses whose string forms are prefixes / extensions of one another
+// (the symbolic harness models address<->string conversion as an injection and cannot see textual bugs).
+func Verif_C13_admission_concrete_addresses() {
+	verifEngineOnly()
+	verifDelayBound(0)
+	verifNote("concrete addresses with real textual forms (netip.Addr.String / ParseAddr / SplitHostPort executed on concrete strings): peer 127.0.0.2 with local address 127.0.0.1 (or none); probe source from {127.0.0.2, 127.0.0.20, 127.0.0.200, 27.0.0.2, ::ffff:127.0.0.2} and destination from {127.0.0.1, 127.0.0.10, 127.0.0.100, 127.0.0.11, 27.0.0.1}: all combinations")
+	s, _ := NewServer(netip.MustParseAddr("10.0.0.1"))
+	pl := newMonPlugin()
+	remote, local := netip.MustParseAddr("127.0.0.2"), netip.MustParseAddr("127.0.0.1")
+	hasLocal := verifChoose("has-local", 2) == 1
+	opts := []PeerOption{WithPassive()}
+	if hasLocal {
+		opts = append(opts, WithLocalAddress(local))
+	}
+	verifAssert("addpeer-ok", s.AddPeer(PeerConfig{RemoteAddress: remote, LocalAS: 65000, RemoteAS: 65001}, pl, opts...) == nil)
+	go s.Serve(nil)
+	verifQuiesce()
+	srcs := []string{"127.0.0.2", "127.0.0.20", "127.0.0.200", "27.0.0.2", "::ffff:127.0.0.2"}
+	dsts := []string{"127.0.0.1", "127.0.0.10", "127.0.0.100", "127.0.0.11", "27.0.0.1"}
+	src := netip.MustParseAddr(srcs[verifChoose("src", len(srcs))])
+	dst := netip.MustParseAddr(dsts[verifChoose("dst", len(dsts))])
+	c := newStagedConn("probe")
+	c.remote, c.local = src, dst
+	s.handleInboundConn(c)
+	verifQuiesce()
+	admit := src == remote && (!hasLocal || dst == local)
+	if admit {
+		verifAssert("admitted-connection-gets-open", !c.closed && c.wroteOpenFirst())
+		verifCover("concrete-admitted")
+	} else {
+		verifAssert("refused-connection-closed-without-a-byte", c.closed && len(c.writes) == 0 && pl.nGetCaps == 0)
+		verifCover("concrete-refused")
+	}
+	s.Close()
+}
